@@ -10,6 +10,7 @@ from .build import AnalysisBroken
 
 
 def main():
+    sys.setrecursionlimit(50000)
     ap = argparse.ArgumentParser()
     ap.add_argument('prop', nargs='?')
     ap.add_argument('--tier', default=os.environ.get('VERIF_TIER', 'quick'))
@@ -33,7 +34,8 @@ def main():
         print('[%s] ANALYSIS-BROKEN: %s' % (a.prop, e), file=sys.stderr)
         return 2
     except Exception:
-        traceback.print_exc()
+        tb = traceback.format_exc().splitlines()
+        print('\n'.join(tb[:6] + ['  ...'] + tb[-12:]) if len(tb) > 24 else '\n'.join(tb), file=sys.stderr)
         print('[%s] ANALYSIS-BROKEN: internal error' % a.prop, file=sys.stderr)
         return 2
 
